@@ -37,16 +37,57 @@ proof fn lemma_b26c_examples()
     assert(seq!['X', 'F'].drop_last() =~= seq!['X']);
 }
 
-/// the oracle is injective on names: (all upper) value determines the last letter -- used for C14.column_letters_last
-proof fn lemma_b26c_last(s: Seq<char>)
-    requires all_upper_c(s), s.len() >= 1,
-    ensures (s.last() as u32 - 0x41) as nat == (b26c(s) - 1) % 26,
+/// value of a letter string written least-significant letter first (what the loop accumulates before the final reversal)
+pub open spec fn b26c_rev(s: Seq<char>) -> nat
+    decreases s.len()
 {
-    assert(is_upper_c(s[s.len() - 1]));
-    let q = b26c(s.drop_last());
-    let d = (s.last() as u32 - 0x41) as nat;
-    assert(b26c(s) - 1 == q * 26 + d);
-    assert((q * 26 + d) % 26 == d) by (nonlinear_arith) requires d < 26;
+    if s.len() == 0 { 0 } else { b26c_rev(s.drop_last()) + letter_val_c(s.last()) * pow26((s.len() - 1) as nat) }
+}
+proof fn lemma_b26c_prepend(d: char, t: Seq<char>)
+    requires is_upper_c(d),
+    ensures b26c(seq![d] + t) == letter_val_c(d) * pow26(t.len()) + b26c(t),
+    decreases t.len(),
+{
+    let s = seq![d] + t;
+    if t.len() == 0 {
+        assert(s =~= seq![d]);
+        assert(s.len() == 1);
+        assert(s.last() == d);
+        assert(s.drop_last() =~= Seq::<char>::empty());
+        assert(b26c(s.drop_last()) == 0);
+        assert(b26c(s) == b26c(s.drop_last()) * 26 + letter_val_c(s.last()));
+        assert(pow26(0) == 1);
+        assert(b26c(t) == 0);
+        assert(letter_val_c(d) * pow26(t.len()) == letter_val_c(d)) by (nonlinear_arith) requires pow26(t.len()) == 1;
+    } else {
+        assert(s.drop_last() =~= seq![d] + t.drop_last());
+        assert(s.last() == t.last());
+        lemma_b26c_prepend(d, t.drop_last());
+        let p = pow26(t.drop_last().len());
+        assert(pow26(t.len()) == 26 * p);
+        assert(b26c(s) == b26c(s.drop_last()) * 26 + letter_val_c(s.last()));
+        assert(b26c(t) == b26c(t.drop_last()) * 26 + letter_val_c(t.last()));
+        let dv = letter_val_c(d);
+        assert((dv * p + b26c(t.drop_last())) * 26 == dv * (26 * p) + b26c(t.drop_last()) * 26) by (nonlinear_arith);
+        assert(dv * pow26(t.len()) == dv * (26 * p));
+    }
+}
+proof fn lemma_b26c_reverse(s: Seq<char>)
+    requires all_upper_c(s),
+    ensures b26c(s.reverse()) == b26c_rev(s),
+    decreases s.len(),
+{
+    if s.len() == 0 {
+        assert(s.reverse() =~= Seq::<char>::empty());
+    } else {
+        let t = s.drop_last();
+        assert(s.reverse() =~= seq![s.last()] + t.reverse());
+        assert forall|i: int| 0 <= i < t.len() implies is_upper_c(#[trigger] t[i]) by { assert(t[i] == s[i]); }
+        assert(is_upper_c(s[s.len() - 1]));
+        lemma_b26c_reverse(t);
+        lemma_b26c_prepend(s.last(), t.reverse());
+        assert(t.reverse().len() == s.len() - 1);
+    }
 }
 
 /// the characters an iterator (of any type) will yield, in order
@@ -72,12 +113,8 @@ pub broadcast proof fn axiom_iter_chars_rev_chars(it: core::iter::Rev<core::str:
         all_upper_c(appended(old(buf)@, final(buf)@)),
         //# C14.column_letters_len
         col < 16384 ==> 1 <= appended(old(buf)@, final(buf)@).len() <= 3,
-        //# C14.column_letters_last
-        appended(old(buf)@, final(buf)@).len() >= 1 && appended(old(buf)@, final(buf)@).last() as u32 == 0x41 + col % 26,
         //# C14.column_letters
-        col < 16384 ==> b26c(appended(old(buf)@, final(buf)@)) == col + 1,
-        //# C14.column_letters_single
-        col < 26 ==> b26c(appended(old(buf)@, final(buf)@)) == col + 1,
+        b26c(appended(old(buf)@, final(buf)@)) == col + 1,
 //@@ body
     broadcast use axiom_iter_chars_rev_chars;
     let ghost col0 = col;
@@ -97,26 +134,44 @@ pub broadcast proof fn axiom_iter_chars_rev_chars(it: core::iter::Rev<core::str:
             invariant
                 all_upper_c(rev@),
                 col0 < 16384 ==> rev@.len() <= 2,
-                col0 >= 26,
-                rev@.len() == 0 ==> col == col0,
-                rev@.len() >= 1 ==> rev@[0] as u32 == 0x41 + col0 % 26,
-                col * pow26(rev@.len()) <= col0,
+                col0 + 1 == (col + 1) * pow26(rev@.len()) + b26c_rev(rev@),
             decreases col,
 //@@ before /let c = /
             let ghost r0 = rev@;
             let ghost colb = col;
-//@@ after /col \/= [^;]*;/
+//@@ after /col -= 1;/
             proof {
-                reveal_with_fuel(pow26, 4);
-                if rev@.len() == r0.len() + 1 && col * 26 <= colb {
-                    assert(pow26(rev@.len()) == 26 * pow26(r0.len()));
-                    if col0 < 16384 && r0.len() == 2 { assert(pow26(2) == 676); assert(colb * 676 >= 17576); assert(false); }
-                    assert(col * (26 * pow26(r0.len())) <= colb * pow26(r0.len())) by (nonlinear_arith) requires col * 26 <= colb;
+                // hints only: conditional on what the body did, never restating it
+                if rev@.len() == r0.len() + 1 && rev@.drop_last() =~= r0 {
+                    let lv = letter_val_c(rev@.last());
+                    let p = pow26(r0.len());
+                    assert(pow26(rev@.len()) == 26 * p);
+                    assert(b26c_rev(rev@) == b26c_rev(r0) + lv * p);
+                    if colb + 1 == (col + 1) * 26 + lv {
+                        assert((colb + 1) * p == (col + 1) * (26 * p) + lv * p) by (nonlinear_arith) requires colb + 1 == (col + 1) * 26 + lv;
+                    }
+                    if col0 < 16384 && r0.len() == 2 {
+                        reveal_with_fuel(pow26, 4);
+                        assert(p == 676);
+                        assert((colb + 1) * 676 >= 18252);
+                        assert(false);
+                    }
                 }
             }
+//@@ before /rev\.push\(/#1of2
+        let ghost r1 = rev@;
+//@@ before /buf\.extend\(/
+        proof {
+            if rev@.len() == r1.len() + 1 && rev@.drop_last() =~= r1 {
+                assert(b26c_rev(rev@) == b26c_rev(r1) + letter_val_c(rev@.last()) * pow26(r1.len()));
+            }
+        }
 //@@ after /buf\.extend\([^;]*;/
         proof {
-            if buf@ == b0 + rev@.reverse() { assert(appended(b0, buf@) =~= rev@.reverse()); }
+            if buf@ == b0 + rev@.reverse() {
+                assert(appended(b0, buf@) =~= rev@.reverse());
+                lemma_b26c_reverse(rev@);
+            }
         }
 //@@ end
 
